@@ -26,7 +26,9 @@ RULE = ('cases = (object kind in {sed, cube, conv}, spectral axis ascending/desc
         'with/without apertures, with/without uncertainties (cube), flux unit, memmap (cube), sizes 1..6 models x '
         '1..5 apertures x 2..40 wavelengths, distinct cell values); every case is non-trivial (>= 2 wavelengths, '
         'so a reversal or a mis-permutation changes some cell); distinct = distinct canonical hash of the inputs. '
-        'The directed block enumerates the full product of the discrete dimensions.')
+        'The directed block enumerates the full product of the discrete dimensions. Histories: 2..4 successive '
+        'write(overwrite=True) -> read round trips on ONE path per object kind, fresh contents of the same shape '
+        '(sometimes another shape) each time, every read compared with what was written last.')
 UNITS = ['mJy', 'Jy', 'erg/cm2/s', 'erg/s']
 ASSUMPTIONS = [
     'FITS byte layout, unit-string formatting/parsing are astropy\'s (trusted); float64 payload is stored bit-exactly',
@@ -75,15 +77,20 @@ def all_combos():
 
 REQUIRED_BRANCHES = sorted({combo_name(c) for c in all_combos()}) + \
     ['write_reverses', 'write_keeps', 'read_reverses', 'read_keeps', 'get_sed', 'get_sed_no_unc', 'single_aperture',
-     'multi_aperture', 'single_model', 'multi_model']
+     'multi_aperture', 'single_model', 'multi_model',
+     'history_sed', 'history_cube', 'history_conv', 'history_same_shape', 'history_other_shape']
 
 
-def fill(rng, combo, small=False):
-    """draw sizes and arrays for one combination of the discrete dimensions"""
+def fill(rng, combo, small=False, sizes=None):
+    """draw sizes and arrays for one combination of the discrete dimensions (sizes = (nm, nw, nap) to fix them)"""
     c = dict(combo)
     nm = rng.randint(1, 3 if small else 6)
     nw = rng.randint(2, 5 if small else 40)
     nap = rng.randint(1, 3 if small else 5) if c['has_ap'] else 1
+    if sizes is not None:
+        nm, nw, nap = sizes
+        if not c['has_ap']:
+            nap = 1
     ws = set()
     while len(ws) < nw:
         ws.add(nice(rng, 0.1, 1000., 4))
@@ -103,15 +110,62 @@ def fill(rng, combo, small=False):
     return c
 
 
+def gen_history(rng, combo, n_steps, shape_change, small=True):
+    """2..4 successive write(overwrite=True) -> read round trips on ONE path: same object kind, same units / order /
+    optional parts, fresh contents of the same shape each time (axis direction may flip); with `shape_change` one of
+    the later steps has other sizes"""
+    first = fill(rng, combo, small=small)
+    sizes = (len(first['names']), len(first['wav']), len(first['val'][0]))
+    steps = [first]
+    change_at = rng.randrange(1, n_steps) if shape_change else -1
+    for k in range(1, n_steps):
+        cb = dict(combo)
+        if rng.random() < 0.5:
+            cb['direction'] = 'asc' if combo['direction'] == 'desc' else 'desc'
+        if k == change_at:
+            st = fill(rng, cb, small=small)
+            if (len(st['names']), len(st['wav']), len(st['val'][0])) == sizes:
+                st = fill(rng, cb, small=small, sizes=(sizes[0], sizes[1] + 1, sizes[2]))
+        else:
+            st = fill(rng, cb, small=small, sizes=sizes)
+        steps.append(st)
+    return dict(kind='history', obj=combo['kind'], steps=steps, shape_change=bool(shape_change))
+
+
+def history_combos():
+    """one history per (kind, read order, unit) for SEDs, (order, memmap, unc) x two units for cubes, (apertures) for
+    convolved fluxes"""
+    out = []
+    for c in all_combos():
+        if c['kind'] == 'sed' and c['direction'] == 'asc' and c['has_ap']:
+            out.append(c)
+        elif c['kind'] == 'cube' and c['direction'] == 'desc' and c['has_ap'] and c['unit'] in ('mJy', 'erg/s'):
+            out.append(c)
+        elif c['kind'] == 'conv' and c['unit'] in ('mJy', 'erg/cm2/s'):
+            out.append(c)
+    return out
+
+
 def gen_cases(seed, tier):
     i = 0
     for combo in all_combos():
         yield fill(case_rng(seed, PID, i), combo, small=True)
         i += 1
+    # same-path histories (directed): every history combo with 3 same-shape steps, every third one again with a
+    # change of shape in between
+    for n, combo in enumerate(history_combos()):
+        rng = case_rng(seed, PID, i); i += 1
+        yield gen_history(rng, combo, 3, False)
+        if n % 3 == 0:
+            rng = case_rng(seed, PID, i); i += 1
+            yield gen_history(rng, combo, 4, True)
     combos = all_combos()
     for _ in range(N_RANDOM[tier]):
         rng = case_rng(seed, PID, i)
-        yield fill(rng, rng.choice(combos), small=False)
+        if rng.random() < 0.12:
+            yield gen_history(rng, rng.choice(combos), rng.randint(2, 4), rng.random() < 0.3, small=rng.random() < 0.5)
+        else:
+            yield fill(rng, rng.choice(combos), small=False)
         i += 1
 
 
@@ -200,7 +254,7 @@ def check_sed(c, d, branches, with_model=True):
         fn = os.path.join(d, 'sed_%d.fits' % im)
         try:
             with common.quiet():
-                s.write(fn)
+                s.write(fn, overwrite=True)
                 r = SED.read(fn, order=c['order'], unit_flux=unit)
                 r2 = SED.read(fn, order=other, unit_flux=unit)
         except Exception as e:
@@ -288,7 +342,7 @@ def check_cube(c, d, branches, with_model=True):
     fn = os.path.join(d, 'cube.fits')
     try:
         with common.quiet():
-            cube.write(fn)
+            cube.write(fn, overwrite=True)
             r = SEDCube.read(fn, order=c['order'], memmap=c['memmap'])
             r2 = SEDCube.read(fn, order=other, memmap=c['memmap'])
     except Exception as e:
@@ -438,7 +492,7 @@ def check_conv(c, d, branches, with_model=True):
         fn = os.path.join(d, 'conv_%d.fits' % k)
         try:
             with common.quiet():
-                cf.write(fn)
+                cf.write(fn, overwrite=True)
                 r = ConvolvedFluxes.read(fn)
         except Exception as e:
             prop.append('conv write/read raised %s: %s' % (type(e).__name__, e))
@@ -486,7 +540,21 @@ def check_conv(c, d, branches, with_model=True):
     return prop, mod
 
 
-CHECKS = {'sed': check_sed, 'cube': check_cube, 'conv': check_conv}
+def check_history(c, d, branches, with_model=True):
+    """every step writes to the same paths in `d` (overwrite=True) and is read back at once: each read is compared
+    with what was written last, by the same checks as a single round trip"""
+    prop, mod = [], []
+    for k, step in enumerate(c['steps']):
+        p, m = CHECKS[step['kind']](step, d, branches, with_model=with_model)
+        tag = 'write #%d of %d to the same path (%s)' % (k + 1, len(c['steps']), combo_name(step))
+        prop += ['%s: %s' % (tag, x) for x in p]
+        mod += ['%s: %s' % (tag, x) for x in m]
+    branches.add('history_' + c['obj'])
+    branches.add('history_other_shape' if c.get('shape_change') else 'history_same_shape')
+    return prop, mod
+
+
+CHECKS = {'sed': check_sed, 'cube': check_cube, 'conv': check_conv, 'history': check_history}
 
 
 def evaluate(case, with_model=True):
@@ -499,37 +567,50 @@ def evaluate(case, with_model=True):
     return prop, mod, branches
 
 
+def label(case):
+    if case['kind'] == 'history':
+        return 'history|%s|%d steps' % (case['obj'], len(case['steps']))
+    return combo_name(case)
+
+
 def run_case(case):
     prop, mod, branches = evaluate(case)
-    branches.add(combo_name(case))
-    nm = len(case['names'])
-    nap = len(case['aps']) if case['aps'] else 1
-    branches.add('single_aperture' if nap == 1 else 'multi_aperture')
-    branches.add('single_model' if nm == 1 else 'multi_model')
-    sample = dict(combo=combo_name(case), n_models=nm, n_ap=nap, n_wav=len(case['wav']), wav=case['wav'][:4])
+    parts = case['steps'] if case['kind'] == 'history' else [case]
+    for c in parts:
+        branches.add(combo_name(c))
+        nm = len(c['names'])
+        nap = len(c['aps']) if c['aps'] else 1
+        branches.add('single_aperture' if nap == 1 else 'multi_aperture')
+        branches.add('single_model' if nm == 1 else 'multi_model')
+    c0 = parts[0]
+    sample = dict(combo=label(case), n_models=len(c0['names']), n_ap=len(c0['aps']) if c0['aps'] else 1,
+                  n_wav=len(c0['wav']), wav=c0['wav'][:4])
     key = common.canon_hash(case)
     if prop:
-        return CaseResult(False, detail='property fails on the real code [%s]: %s' % (combo_name(case), '; '.join(prop[:4])),
+        return CaseResult(False, detail='property fails on the real code [%s]: %s' % (label(case), '; '.join(prop[:4])),
                           branches=branches, key=key, violates=True, sample=sample)
     if mod:
-        return CaseResult(False, detail='model and implementation differ [%s]: %s' % (combo_name(case), '; '.join(mod[:4])),
+        return CaseResult(False, detail='model and implementation differ [%s]: %s' % (label(case), '; '.join(mod[:4])),
                           branches=branches, key=key, violates=None, sample=sample)
     return CaseResult(True, branches=branches, key=key, nontrivial=True, sample=sample)
 
 
 def search(seed, tier, disagreeing):
     """the property evaluated directly on the real code (no model, no driver): the disagreeing cases, then the
-    full directed product with fresh draws"""
+    full directed product with fresh draws, then same-path histories"""
     found = []
     tried = 0
     cases = list(disagreeing)
-    for i, combo in enumerate(all_combos()):
-        cases.append(fill(case_rng(seed, PID + 'search', i), combo, small=True))
+    i = 0
+    for combo in all_combos():
+        cases.append(fill(case_rng(seed, PID + 'search', i), combo, small=True)); i += 1
+    for combo in history_combos():
+        cases.append(gen_history(case_rng(seed, PID + 'search', i), combo, 3, False)); i += 1
     for c in cases:
         tried += 1
         prop, _, _ = evaluate(c, with_model=False)
         if prop:
-            found.append((c, 'property fails on the real code [%s]: %s' % (combo_name(c), '; '.join(prop[:4]))))
+            found.append((c, 'property fails on the real code [%s]: %s' % (label(c), '; '.join(prop[:4]))))
             if len(found) >= 5:
                 break
     return found, tried
@@ -543,6 +624,15 @@ def shrink(case):
             return (not r.ok) and bool(r.violates)
         except Exception:
             return False
+    if case['kind'] == 'history':
+        # a shorter history that still fails (a single step first: then it is not about the history at all)
+        n = len(case['steps'])
+        for length in range(1, n):
+            for a in range(0, n - length + 1):
+                c = dict(case); c['steps'] = case['steps'][a:a + length]
+                if fails(c):
+                    return c
+        return case
     cur = case
     changed = True
     while changed:
